@@ -230,7 +230,7 @@ def run_csr_case(c):
         procs = [stub.process(), snk.process()]
     else:
         words = [r.getrandbits(dw) for _ in range(total2 + 8)]
-        src = StreamSource(dma.sink, [dict(data=w) for w in words], r, valid_prob=c["src_valid"])
+        src = StreamSource(dma.sink, [dict(data=w) for w in words], r, valid_prob=c["src_valid"], scramble=r.random() < 0.5)
         procs = [stub.process()]
 
     def ctrl():
@@ -415,7 +415,7 @@ def run_case(c):
         addrs.append(a)
     if c["engine"] == "reader":
         items = [dict(address=a << shift, last=int(r.random() < 0.1 or k == n - 1)) for k, a in enumerate(addrs)]
-        src = StreamSource(dut.dma.sink, items, r, valid_prob=c["src_valid"])
+        src = StreamSource(dut.dma.sink, items, r, valid_prob=c["src_valid"], scramble=r.random() < 0.5)
         tog = EnableToggler(dut.dma.enable, stub, r, c["fifo_depth"]) if c.get("toggle") else None
         snk = StreamSink(dut.dma.source, ["data", "last"], r,
                          hold_until=(tog.disabled if tog is not None and c["toggle"] == "stalled" else None), **sink_profile(c, r))
@@ -432,7 +432,7 @@ def run_case(c):
     else:
         tog = None
         items = [dict(address=a << shift, data=r.getrandbits(dw), last=int(k == n - 1)) for k, a in enumerate(addrs)]
-        src = StreamSource(dut.dma.sink, items, r, valid_prob=c["src_valid"])
+        src = StreamSource(dut.dma.sink, items, r, valid_prob=c["src_valid"], scramble=r.random() < 0.5)
         procs = mem_proc + [src.process()]
 
         def finished():
